@@ -258,25 +258,38 @@ func (b *basicBus) Subscribe(evtTypes any, opts ...event.SubscriptionOpt) (_ eve
 		}
 	}
 
+	// Register with all nodes under a single hold of the bus lock. Replaying
+	// the last event of a stateful type can block until the subscriber starts
+	// reading (i.e. until after we return) while holding that node's lock. If
+	// we released the bus lock between types, somebody else could take it and
+	// wait for that node, and we would wait for the bus lock forever.
+	b.lk.Lock()
 	for i, etyp := range types {
-		typ := reflect.TypeOf(etyp)
+		typ := reflect.TypeOf(etyp).Elem()
 
-		b.withNode(typ.Elem(), func(n *node) {
-			n.sinks = append(n.sinks, &namedSink{ch: out.ch, name: out.name})
-			out.nodes[i] = n
-			if b.metricsTracer != nil {
-				b.metricsTracer.AddSubscriber(typ.Elem())
-			}
-		}, func(n *node) {
-			if n.keepLast {
-				l := n.last
-				if l == nil {
-					return
-				}
+		n, ok := b.nodes[typ]
+		if !ok {
+			n = newNode(typ, b.metricsTracer, b.log)
+			b.nodes[typ] = n
+		}
+
+		n.lk.Lock()
+		n.sinks = append(n.sinks, &namedSink{ch: out.ch, name: out.name})
+		out.nodes[i] = n
+		if b.metricsTracer != nil {
+			b.metricsTracer.AddSubscriber(typ)
+		}
+		if n.keepLast && n.last != nil {
+			l := n.last
+			go func() {
+				defer n.lk.Unlock()
 				out.ch <- l
-			}
-		})
+			}()
+		} else {
+			n.lk.Unlock()
+		}
 	}
+	b.lk.Unlock()
 
 	return out, nil
 }
